@@ -5,6 +5,7 @@ import UVerifProofs.Lemmas.CfloatVal
 import UVerifProofs.Lemmas.CfloatMul
 import UVerifProofs.Lemmas.CfloatEq
 import UVerifProofs.Lemmas.CfloatLt
+import UVerifProofs.Lemmas.CfloatStep
 open UVerif UVerif.Cfloat
 
 /-- IEEE equality on denoted values: NaN unequal to everything, −0 = +0 -/
@@ -25,7 +26,8 @@ def C06_cfloat_specLt (x y : Val) : Bool :=
   | .fin s m, .fin t k => decide ((if s then -m else m) < (if t then -k else k))
 
 /-- full statement: `==` is IEEE value equality (NaN unequal to everything, −0 = +0, every encoding that denotes
-    zero equal to every other) — proved below as `C06_cfloat_eq` since the repair d3ba933 of operator== -/
+    zero equal to every other) — FALSE of the code (D3, finding cfloat.eq.bitwise_zero: the repair d3ba933 was withdrawn,
+    static/cfloat/logic/logic.cpp uses bit-pattern equality as its reference): `C06_cfloat_eq_full_false` -/
 def C06_cfloat_eq_full : Prop :=
   ∀ (c : Cfg) (a b : Nat), c.valid = true → a < 2 ^ c.nbits → b < 2 ^ c.nbits →
     eq c a b = C06_cfloat_specEq (cfVal c a) (cfVal c b)
@@ -35,14 +37,21 @@ def C06_cfloat_lt_full : Prop :=
   ∀ (c : Cfg) (a b : Nat), c.valid = true → a < 2 ^ c.nbits → b < 2 ^ c.nbits →
     lt c a b = C06_cfloat_specLt (cfVal c a) (cfVal c b)
 
-/-- **`==` is value equality** for every valid configuration (any nbits, es, block type, flags) and every pair of
-    canonical encodings: NaN (also the supernormal encodings that read as NaN without supernormals) unequal to
-    everything incl. itself; +0 == −0 and, without subnormals, every exponent-0 encoding equals every other; two
-    infinities equal iff same sign; finite non-zero values equal iff the encodings are identical (the value map is
-    injective there). `!=` is the negation in the code and in the model's mask. -/
-theorem C06_cfloat_eq : C06_cfloat_eq_full := by
+/-- `operator==` as the withdrawn repair d3ba933 had it (two encodings that `iszero()` classifies as zero are equal,
+    otherwise as the code): used to state what the block-wise `==` gets right -/
+def C06_cfloat_eqZ (c : Cfg) (a b : Nat) : Bool :=
+  if isNan c a || isNan c b then false
+  else if isZero c a && isZero c b then true
+  else a == b
+
+/-- the zero-collapsing equality is IEEE value equality for every valid configuration and every pair of canonical
+    encodings: NaN (also the supernormal encodings that read as NaN without supernormals) unequal to everything incl.
+    itself; all zero encodings equal; two infinities equal iff same sign; finite non-zero values equal iff the encodings
+    are identical (the value map is injective there). -/
+theorem C06_cfloat_eqZ_spec : ∀ (c : Cfg) (a b : Nat), c.valid = true → a < 2 ^ c.nbits → b < 2 ^ c.nbits →
+    C06_cfloat_eqZ c a b = C06_cfloat_specEq (cfVal c a) (cfVal c b) := by
   intro c a b hv ha hb
-  unfold eq
+  unfold C06_cfloat_eqZ
   rcases cfVal_view c hv a with ⟨ea, na⟩ | ⟨ea, na, ia, za⟩ | ⟨ma, ea, na, ia, za⟩
   · rw [ea, na]; simp [C06_cfloat_specEq]
   · rcases cfVal_view c hv b with ⟨eb, nb⟩ | ⟨eb, nb, ib, zb⟩ | ⟨mb, eb, nb, ib, zb⟩
@@ -98,16 +107,78 @@ theorem C06_cfloat_eq : C06_cfloat_eq_full := by
           simp only [h0a, decide_false, Bool.false_and, Bool.false_eq_true, if_false]
           rw [lhs, rhs]
 
-/-- non-vacuity / regression of the repaired cases: +0 == −0, and two exponent-0 aliases of zero in a configuration
-    without subnormals, now compare equal; a NaN still differs from itself -/
-example : let c : Cfg := { nbits := 5, es := 2, sub := true }
-    eq c 0x00 0x10 = true ∧ eq { c with sub := false } 0x01 0x12 = true ∧ eq c 0x0f 0x0f = false := by
+/-- the input class of D3 (`cfloat.eq.bitwise_zero` in the driver): both operands denote zero and the encodings differ -/
+def C06_cfloat_eq_zeroAlias (c : Cfg) (a b : Nat) : Bool :=
+  (cfVal c a).isZero && (cfVal c b).isZero && a != b
+
+/-- **`==` is value equality outside the class D3**: every valid configuration (any nbits, es, block type, flags), every
+    pair of canonical encodings that are not two DIFFERENT encodings of zero. `!=` is the negation in the code and in the
+    model's mask, so the same holds for it. -/
+theorem C06_cfloat_eq_partial (c : Cfg) (hv : c.valid = true) (a b : Nat) (ha : a < 2 ^ c.nbits) (hb : b < 2 ^ c.nbits)
+    (hx : C06_cfloat_eq_zeroAlias c a b = false) :
+    eq c a b = C06_cfloat_specEq (cfVal c a) (cfVal c b) := by
+  rw [← C06_cfloat_eqZ_spec c a b hv ha hb]
+  unfold C06_cfloat_eq_zeroAlias at hx
+  rw [cfVal_isZero c hv, cfVal_isZero c hv] at hx
+  unfold eq C06_cfloat_eqZ
+  by_cases hn : (isNan c a || isNan c b) = true
+  · simp [hn]
+  · simp only [hn, Bool.false_eq_true, if_false]
+    by_cases hz : (isZero c a && isZero c b) = true
+    · simp only [hz, if_true]
+      rw [hz, Bool.true_and] at hx
+      simpa using hx
+    · simp [hz]
+
+/-- soundness direction, no guard needed: when `==` answers true the operands denote equal non-NaN values -/
+theorem C06_cfloat_eq_sound (c : Cfg) (hv : c.valid = true) (a b : Nat) (ha : a < 2 ^ c.nbits) (hb : b < 2 ^ c.nbits)
+    (h : eq c a b = true) : C06_cfloat_specEq (cfVal c a) (cfVal c b) = true := by
+  have hab : a = b := by
+    unfold eq at h
+    by_cases hn : (isNan c a || isNan c b) = true
+    · rw [if_pos hn] at h; cases h
+    · rw [if_neg hn] at h; simpa using h
+  have hx : C06_cfloat_eq_zeroAlias c a b = false := by
+    unfold C06_cfloat_eq_zeroAlias; subst hab; simp
+  rw [← C06_cfloat_eq_partial c hv a b ha hb hx]; exact h
+
+/-- D3: +0 == −0 is false although both denote zero; witness half-like cfloat<5,2> with subnormals
+    (`cfloat 5 2 u8 100 cmp 0 10 => 2a`), and two exponent-0 aliases of zero without subnormals -/
+theorem C06_cfloat_eq_counterexample :
+    let c : Cfg := { nbits := 5, es := 2, sub := true }
+    eq c 0x00 0x10 = false ∧ C06_cfloat_specEq (cfVal c 0x00) (cfVal c 0x10) = true ∧
+    eq { c with sub := false } 0x01 0x12 = false ∧
+    C06_cfloat_specEq (cfVal { c with sub := false } 0x01) (cfVal { c with sub := false } 0x12) = true ∧
+    C06_cfloat_eq_zeroAlias c 0x00 0x10 = true := by
   decide +kernel
 
-/-- soundness direction kept as a corollary: when `==` answers true the operands denote equal non-NaN values -/
-theorem C06_cfloat_eq_partial (c : Cfg) (hv : c.valid = true) (a b : Nat) (ha : a < 2 ^ c.nbits) (hb : b < 2 ^ c.nbits)
-    (h : eq c a b = true) : C06_cfloat_specEq (cfVal c a) (cfVal c b) = true := by
-  rw [← C06_cfloat_eq c a b hv ha hb]; exact h
+theorem C06_cfloat_eq_full_false : ¬ C06_cfloat_eq_full := by
+  intro h
+  have := h { nbits := 5, es := 2, sub := true } 0x00 0x10 (by decide) (by decide) (by decide)
+  revert this
+  decide +kernel
+
+/-- D3 for every configuration: the two zero encodings are never `==` although both denote zero -/
+theorem C06_cfloat_eq_signed_zero (c : Cfg) (hv : c.valid = true) :
+    eq c 0 (signBit c true) = false ∧ (cfVal c 0).isZero = true ∧ (cfVal c (signBit c true)).isZero = true := by
+  have sf := signBit_facts c hv true
+  have s0 := signBit_facts c hv false
+  have e0 : signBit c false = 0 := by unfold signBit; simp
+  rw [e0] at s0
+  have z1 : isZero c (signBit c true) = true := isZero_of_isZeroEnc c hv _ sf.2.1
+  have z0 : isZero c 0 = true := isZero_of_isZeroEnc c hv _ s0.2.1
+  refine ⟨?_, by rw [cfVal_isZero c hv, z0], by rw [cfVal_isZero c hv, z1]⟩
+  unfold eq
+  have hne : (0 == signBit c true) = false := by
+    have : 0 < signBit c true := by unfold signBit; simp
+    rw [beq_eq_false_iff_ne]; omega
+  rw [hne]; simp
+
+/-- non-vacuity of the guard: an ordinary pair, a zero with itself and a NaN with itself are outside the class -/
+example : let c : Cfg := { nbits := 5, es := 2, sub := true }
+    C06_cfloat_eq_zeroAlias c 0x04 0x05 = false ∧ C06_cfloat_eq_zeroAlias c 0x10 0x10 = false ∧
+    eq c 0x10 0x10 = true ∧ eq c 0x0f 0x0f = false := by
+  decide +kernel
 
 /-- NaN operands are unordered: all of == < <= > >= are false (so != is true), every configuration -/
 theorem C06_cfloat_nan_unordered (c : Cfg) (a b : Nat) (h : isNan c a = true ∨ isNan c b = true) :
@@ -135,32 +206,66 @@ theorem C06_cfloat_lt_irrefl_nosub (c : Cfg) (hs : c.sub = false) (a : Nat) : lt
       simp only [hn', hi', hs, Bool.or_self, Bool.false_eq_true, if_false, Bool.and_self, Bool.false_and]
       cases hz : isZero c a <;> cases hsg : c.signOf a <;> simp
 
-/-- D6: `--` on the all-ones encoding of cfloat<5,2,uint8_t> leaves bit 5 set (0b100000) -/
-theorem C06_cfloat_dec_counterexample :
-    let c : Cfg := { nbits := 5, es := 2, bt := 8, sub := true }
-    decr c 0x1f = 0x20 ∧ ¬ (decr c 0x1f < 2 ^ c.nbits) := by
-  decide
+/-! ### operator++ / operator-- (after the repairs of D6, isminnegencoding() and the stepping from zero) -/
 
-/-- D6 in general (single block wider than nbits): the all-ones encoding steps to 2^nbits -/
-theorem C06_cfloat_dec_allones (c : Cfg) (hv : c.valid = true) (h1 : c.nrBlocks = 1) (hw : c.nbits < c.bt) :
-    decr c (2 ^ c.nbits - 1) = 2 ^ c.nbits := by
-  have hp := pow_nbits c hv
-  have hP := two_pow_pos (c.nbits - 1)
-  have hsign : c.signOf (2 ^ c.nbits - 1) = true := by
-    have := compose_facts c hv (2 ^ (c.nbits - 1) - 1) true (by omega)
-    have e : 2 ^ (c.nbits - 1) - 1 + signBit c true = 2 ^ c.nbits - 1 := by unfold signBit; simp; omega
-    rw [e] at this; exact this.2.2
-  have hlt : 2 ^ c.nbits < 2 ^ (c.nrBlocks * c.bt) := by
-    rw [h1, Nat.one_mul]; exact Nat.pow_lt_pow_right (by omega) hw
-  unfold decr
-  simp only [h1, if_true, hsign]
-  have : 2 ^ c.nbits - 1 + 1 = 2 ^ c.nbits := by omega
-  rw [this, ← h1, Nat.mod_eq_of_lt hlt]
+/-- **++ and -- return canonical encodings** (no bit above nbits) for every valid configuration, every block type and
+    every canonical operand, NaN and infinity operands included. This was false before the repair of D6
+    (`--` on the all-ones encoding carried into bit nbits whenever the block is wider than the field:
+    `cfloat 8 3 u32 100 dec ff => 100`); now the most significant block is masked. -/
+theorem C06_cfloat_step_canonical (c : Cfg) (hv : c.valid = true) (a : Nat) (ha : a < 2 ^ c.nbits) :
+    incr c a < 2 ^ c.nbits ∧ decr c a < 2 ^ c.nbits :=
+  ⟨incr_lt c hv a ha, decr_lt c hv a ha⟩
 
-/-- ++ on −0 yields the quiet-NaN pattern (single block), e.g. cfloat<8,3>: 0x80 ↦ 0x7f -/
-theorem C06_cfloat_inc_negzero_counterexample :
-    let c : Cfg := { nbits := 8, es := 3, bt := 32, sub := true }
-    incr c 0x80 = 0x7f ∧ isNan c 0x7f = true ∧ (cfVal c 0x80).isZero = true := by
+/-- the former D6 witnesses (single block wider than nbits, and a partially filled top block of three): `--` on the
+    all-ones encoding now wraps to 0 modulo 2^nbits -/
+theorem C06_cfloat_dec_allones_cfg :
+    decr { nbits := 5, es := 2, bt := 8, sub := true } 0x1f = 0 ∧
+    decr { nbits := 8, es := 3, bt := 32, sub := true } 0xff = 0 ∧
+    decr { nbits := 24, es := 5, bt := 32, sat := true } 0xffffff = 0 ∧
+    decr { nbits := 20, es := 5, bt := 8, sub := true } 0xfffff = 0 := by
+  decide +kernel
+
+/-- a value is a zero of the configuration: +0, −0 and, without subnormals, every encoding with exponent field 0 -/
+def C06_cfloat_isZeroValue (c : Cfg) (a : Nat) : Prop := (cfVal c a).isZero = true
+instance (c : Cfg) (a : Nat) : Decidable (C06_cfloat_isZeroValue c a) := by unfold C06_cfloat_isZeroValue; infer_instance
+
+/-- **stepping from zero**: for every valid configuration, every block type and EVERY encoding that denotes zero
+    (+0, −0, and the exponent-0 aliases when the configuration has no subnormals) `++` returns the minpos encoding and
+    `--` the minneg encoding (smallest subnormal with subnormals, smallest normal without). Before the repair `++(−0)`
+    was the quiet-NaN pattern (`cfloat 8 3 u32 100 inc 80 => 7f`) and the aliases stepped to another alias
+    (`cfloat 5 2 u8 000 inc 1 => 2`). -/
+theorem C06_cfloat_step_zero (c : Cfg) (hv : c.valid = true) (hbt : 1 ≤ c.bt) (a : Nat)
+    (hz : C06_cfloat_isZeroValue c a) :
+    incr c a = minposEnc c ∧ decr c a = minnegEnc c := by
+  unfold C06_cfloat_isZeroValue at hz
+  rw [cfVal_isZero c hv] at hz
+  exact ⟨incr_of_zero c hv hbt a hz, decr_of_zero c hv hbt a hz⟩
+
+/-- the former witnesses, now positive: ++(−0) = minpos in cfloat<8,3,sub>; the zero aliases 0b00001, 0b10001, 0b10011 of
+    cfloat<5,2> without subnormals step to ±minpos (0b00100 / 0b10100) -/
+example : let c : Cfg := { nbits := 8, es := 3, bt := 32, sub := true }
+    C06_cfloat_isZeroValue c 0x80 ∧ incr c 0x80 = 0x01 ∧ decr c 0x80 = 0x81 := by
+  decide +kernel
+example : let c : Cfg := { nbits := 5, es := 2, bt := 8 }
+    C06_cfloat_isZeroValue c 0x01 ∧ incr c 0x01 = 0x04 ∧ decr c 0x13 = 0x14 ∧ incr c 0x11 = 0x04 := by
+  decide +kernel
+
+/-- **`isminnegencoding()` is exact for every number of blocks**: for every valid configuration, every block type and
+    every canonical encoding the test is true exactly for the pattern 1.0…0.0…01 (sign bit and bit 0). For more than
+    four blocks this was false before the repair of the loop bound (`cfloat 40 8 u8 111 inc 8080000001 => 0`: the block
+    below the top one was never compared). -/
+theorem C06_cfloat_isminneg_exact (c : Cfg) (hv : c.valid = true) (hbt : 1 ≤ c.bt) (b : Nat) (hb : b < 2 ^ c.nbits) :
+    isMinNegEnc c b = (b == c.signMask + 1) :=
+  isMinNegEnc_eq c hv hbt b hb
+
+/-- the generic (more than four blocks) `isminnegencoding()` loop now inspects every middle block: the former witness
+    0x80.80.00.00.01 of cfloat<40,8,uint8_t> is no longer taken for minneg and steps to the adjacent encoding, minneg
+    itself still steps to +0 -/
+theorem C06_cfloat_inc_minneg_manyblocks_cfg :
+    let c : Cfg := { nbits := 40, es := 8, bt := 8, sub := true, sup := true, sat := true }
+    isMinNegEnc c 0x8080000001 = false ∧ incr c 0x8080000001 = 0x8080000000 ∧
+    isMinNegEnc c 0x8000000001 = true ∧ incr c 0x8000000001 = 0 ∧
+    incr { nbits := 33, es := 8, bt := 8, sub := true } 0x1ad000001 = 0x1ad000000 := by
   decide +kernel
 
 /-- extremes: maxpos/minpos encodings denote the largest / smallest positive values of the spec in a sample of
